@@ -18,7 +18,9 @@ def run(prop, tier, seed, cfg, t0=None):
     catalogue.generate(BUILD)
     backends = list(cfg.get("backends", ["f64", "dec"]))
     # checks about panics also run a build without debug assertions / overflow checks ("release semantics")
-    backends += [b + "-rel" for b in backends if "rel" in cfg.get("profiles", [])]
+    # (quick tier: every E1 check; thorough tier: the checks that ask for it, C10 and C18 - depth costs enough there)
+    if tier == "quick" or "rel" in cfg.get("profiles", []):
+        backends += [b + "-rel" for b in backends]
     build_drives(backends)
     with cf.ThreadPoolExecutor(max_workers=len(backends)) as ex:
         futs = {b: ex.submit(run_drive, b, prop, tier, None, max(4, 16 // min(len(backends), 2))) for b in backends}
